@@ -263,7 +263,7 @@ func runC20(w *World, r *Report, tier string) {
 				badR3 = "the choice of transport depends on something other than the ws:/wss: prefix of config.Address: " + other
 			}
 			// what is returned on this path
-			res0 := rvI(ret.Results[0], len(path)-1)
+			res0 := resolveOn(ret.Results[0], len(path)-1, path)
 			kind := "?"
 			if mi, ok := res0.(*ssa.MakeInterface); ok {
 				kind = w.typeStr(mi.X.Type())
@@ -277,7 +277,7 @@ func runC20(w *World, r *Report, tier string) {
 						badR3 = "a ws:/wss: address does not give the client a WebSocket transport (returns " + kind + ")"
 					}
 				} else {
-					errV := rvI(ret.Results[1], len(path)-1)
+					errV := resolveOn(ret.Results[1], len(path)-1, path)
 					wraps := false
 					if c, ok := errV.(*ssa.Call); ok && w.callKey(c) == "fmt.Errorf" {
 						f, _ := stringConst(c.Call.Args[0])
@@ -343,7 +343,8 @@ func runC20(w *World, r *Report, tier string) {
 					}
 					// copy of the configuration into the transport literal
 					if fa, ok := st.Addr.(*ssa.FieldAddr); ok && fieldOfAddr(fa).Name() == "Config" && strings.HasSuffix(w.typeStr(fa.X.Type()), "xmpp.XMPPTransport") {
-						if u, ok := st.Val.(*ssa.UnOp); ok {
+						// (the configuration may come back, normalised, from a helper: what it returned on this path)
+						if u, ok := rvI(st.Val, i).(*ssa.UnOp); ok {
 							for j, in2 := range path {
 								if in2 == ssa.Instruction(u) {
 									copyIdx = j
@@ -389,6 +390,9 @@ func runC20(w *World, r *Report, tier string) {
 			continue
 		}
 		fk := w.funcKey(acc.Fn)
+		if w.ownedOnlyBy(acc.Fn, "xmpp.NewClientTransport", "xmpp.NewComponentTransport") {
+			continue // the constructors themselves, or a helper that runs only for them: judged on their paths above
+		}
 		switch fk {
 		case "xmpp.NewClientTransport", "xmpp.NewComponentTransport":
 			continue
